@@ -46,8 +46,8 @@ StepMapOK(c, k) == MapOK(c, c.steps[k], c.steps[k].Ef, c.steps[k].Er, "E") /\ Ma
 
 Verdict(c) ==
     IF ~WellFormed(c) THEN "malformed: record shape / nothing of the mirrored half left outside the light cone"
-    ELSE IF ~(StepUnfoldOK(c, 1) /\ StepMapOK(c, 1)) THEN "malformed: initial full-domain fields are not the mirror extension of the reduced ones"
-    ELSE IF \E k \in 2..Len(c.steps) : ~StepUnfoldOK(c, k)
+    ELSE IF ~StepMapOK(c, 1) THEN "malformed: initial full-domain fields are not the mirror extension of the reduced ones"
+    ELSE IF \E k \in 1..Len(c.steps) : ~StepUnfoldOK(c, k)
          THEN "symmetry: unfolded reduced fields differ from the full-domain run outside the far boundary's light cone"
     ELSE IF \E k \in 1..Len(c.dets) : ~DetOK(c, c.dets[k])
          THEN "symmetry: unfolded co-located detector record differs from the full-domain record outside the light cone"
